@@ -53,10 +53,10 @@ type wresult struct {
 	ID        string   `json:"id"`
 	Panic     string   `json:"panic,omitempty"`
 	Stack     string   `json:"stack,omitempty"`
-	Pieces    [][]byte `json:"pieces,omitempty"`   // split pieces / chunk texts
-	Kinds     []string `json:"kinds,omitempty"`    // docchunk: element types per chunk
-	Own       [][]byte `json:"own,omitempty"`      // layout: chunk texts before overlap
-	Prefix    [][]byte `json:"prefix,omitempty"`   // overlap prefix per chunk
+	Pieces    [][]byte `json:"pieces,omitempty"` // split pieces / chunk texts
+	Kinds     []string `json:"kinds,omitempty"`  // docchunk: element types per chunk
+	Own       [][]byte `json:"own,omitempty"`    // layout: chunk texts before overlap
+	Prefix    [][]byte `json:"prefix,omitempty"` // overlap prefix per chunk
 	HasPrefix []bool   `json:"has_prefix,omitempty"`
 	Gen       []byte   `json:"gen,omitempty"` // GenerateOverlap(texts[0]).Text
 	SecTitles []string `json:"sec_titles,omitempty"`
